@@ -5,7 +5,7 @@
 // monomials only through the public API (c, c_dag, n, *, +, -, scalars) and observed (1) through actRight / getMatrixElement on
 // every Fock state and (2) by mapping its stored monomials (begin()/end()) through jw_matrix.
 //
-// Case kinds by ranges of c.k (see layout()):  mono | pair | triple | car | cpair | shortcut | equality | random.
+// Case kinds by ranges of c.k (see layout()):  mono | pair | triple | car | cpair | shortcut | equality | random | wide.
 // Non-trivial rule: the case is part of an exhaustive enumeration (mono, pair, triple, car, cpair) or it evaluated at least one library
 // product / commutator whose two operands both had >= 2 stored monomials.
 #include "common/vh.hpp"
@@ -375,8 +375,8 @@ struct Layout {
     long totMono[4] = {0, 0, 0, 0}, totPair[4] = {0, 0, 0, 0}, totTriple[4] = {0, 0, 0, 0};
     long totCpair[4] = {0, 0, 0, 0};   // structured two-term operators: ordered pairs for commutes()
     long sumMono = 0, sumPair = 0, sumTriple = 0, sumCpair = 0, BC = 1024;
-    long nMono = 0, nPair = 0, nTriple = 0, nCar = 6, nCpair = 0, nShort = 0, nEq = 0, nRand = 0;
-    long total() const { return nMono + nPair + nTriple + nCar + nCpair + nShort + nEq + nRand; }
+    long nMono = 0, nPair = 0, nTriple = 0, nCar = 6, nCpair = 0, nShort = 0, nEq = 0, nRand = 0, nWide = 0;
+    long total() const { return nMono + nPair + nTriple + nCar + nCpair + nShort + nEq + nRand + nWide; }
 };
 static Layout layout(const std::string& tier) {
     Layout y; bool th = (tier == "thorough");
@@ -391,6 +391,7 @@ static Layout layout(const std::string& tier) {
     y.nCpair = (y.sumCpair + y.BC - 1) / y.BC;
     y.nMono = (y.sumMono + y.BM - 1) / y.BM; y.nPair = (y.sumPair + y.BP - 1) / y.BP; y.nTriple = (y.sumTriple + y.BT - 1) / y.BT;
     y.nShort = th ? 400 : 60; y.nEq = th ? 1500 : 150; y.nRand = th ? 15000 : 1500;
+    y.nWide = th ? 2000 : 120;
     return y;
 }
 static long opalg_ncases(const std::string& tier) { return layout(tier).total(); }
@@ -1075,6 +1076,86 @@ static void run_shortcut(Ctx& c, long j) {
     c.nontrivial = c.counters["multi_products"] >= 1;
 }
 
+// ------------------------------------------------------------------------------------------------ kind: wide kets
+// Fock states of 24..200 modes (beyond one and two machine words): the action of random polynomials on random kets against a
+// bit-by-bit Jordan-Wigner reference that never forms a matrix.  Observed through actRight(ket), getMatrixElement(bra,ket) and the
+// static actRight(monomial, ket).
+typedef std::vector<char> WBits;
+static bool wide_apply(const std::vector<FOp>& ops, WBits& b, int& sg) {   // rightmost factor acts first
+    for (size_t k = ops.size(); k-- > 0;) {
+        const FOp& f = ops[k];
+        if ((bool)b[(size_t)f.idx] == f.dag) return false;
+        int below = 0; for (int i = 0; i < f.idx; ++i) below += b[(size_t)i];
+        if (below & 1) sg = -sg;
+        b[(size_t)f.idx] = f.dag ? 1 : 0;
+    }
+    return true;
+}
+static FS wide_fs(const WBits& b) { FS s(b.size()); for (size_t i = 0; i < b.size(); ++i) s[i] = b[i] != 0; return s; }
+static std::string wide_str(const WBits& b) { std::string s; for (size_t i = 0; i < b.size(); ++i) s += b[i] ? '1' : '0'; return s; }
+static void run_wide(Ctx& c, long j) {
+    Rng& r = c.rng;
+    static const int Ms[] = {24, 31, 32, 33, 34, 40, 48, 63, 64, 65, 66, 70, 96, 128, 129, 200};
+    const int M = Ms[j % 16];
+    c.features.set("kind", "wide").set("M", M);
+    c.canon = "wide|" + std::to_string(M) + "|" + std::to_string(j);
+    long nonzero = 0, samples = c.thorough() ? 120 : 60;
+    auto pick_idx = [&]() -> int {     // biased towards word boundaries and the top of the register
+        int w = (int)r.range(0, 5);
+        if (w == 0) return (int)r.range(std::max(0, M - 4), M - 1);
+        if (w == 1 && M > 34) return (int)r.range(29, 36);
+        if (w == 2 && M > 66) return (int)r.range(61, 68);
+        return (int)r.range(0, M - 1);
+    };
+    for (long smp = 0; smp < samples; ++smp) {
+        // ket with a random filling
+        double fill = r.coin(0.3) ? 0.5 : r.uni(0.05, 0.95);
+        WBits ket((size_t)M); for (int i = 0; i < M; ++i) ket[(size_t)i] = r.coin(fill) ? 1 : 0;
+        // polynomial: 1-3 monomials of 1-4 factors; half of the monomials are made applicable to the ket
+        Poly P; int nt = (int)r.range(1, 3);
+        for (int t = 0; t < nt; ++t) {
+            RefTerm T; T.val = pick_coef(r); int nf = (int)r.range(1, 4); bool fit = r.coin(0.6);
+            WBits cur = ket; std::vector<FOp> rev;
+            for (int f = 0; f < nf; ++f) { int idx = pick_idx(); bool dag = fit ? !cur[(size_t)idx] : r.coin(); cur[(size_t)idx] = dag; rev.push_back(FOp{dag, idx}); }
+            T.ops.assign(rev.rbegin(), rev.rend());
+            P.push_back(T);
+        }
+        LOp A = lib_poly(P, r);
+        std::map<std::string, cd> ref;
+        for (auto& T : P) { WBits b = ket; int sg = 1; if (wide_apply(T.ops, b, sg)) ref[wide_str(b)] += T.val * double(sg); }
+        for (auto it = ref.begin(); it != ref.end();) { if (std::abs(it->second) < 1e-12) it = ref.erase(it); else ++it; }
+        FS lket = wide_fs(ket);
+        std::map<FS, Pomerol::MelemType> out = A.actRight(lket);
+        std::map<std::string, cd> got; bool sizes_ok = true;
+        for (auto& kv : out) { if ((int)kv.first.size() != M) sizes_ok = false; std::string s; for (size_t i = 0; i < kv.first.size(); ++i) s += kv.first[i] ? '1' : '0'; if (std::abs(to_cd(kv.second)) > 1e-12) got[s] += to_cd(kv.second); }
+        Desc d = [&] { return "M=" + std::to_string(M) + " A=" + poly_str(P) + " ket(mode0 first)=" + wide_str(ket); };
+        c.check("wide-state-size", "C05:actRight-state-size:wide", sizes_ok, [&] { return d() + ": actRight returned a state whose size is not the number of modes"; });
+        double worst = 0; std::string wb;
+        for (auto& kv : ref) { cd g = got.count(kv.first) ? got[kv.first] : cd(0, 0); double dd = std::abs(g - kv.second); if (dd > worst) { worst = dd; wb = kv.first; } }
+        for (auto& kv : got) if (!ref.count(kv.first)) { double dd = std::abs(kv.second); if (dd > worst) { worst = dd; wb = kv.first; } }
+        std::string wk = M <= 32 ? "le32" : (M <= 64 ? "33to64" : "gt64");
+        c.cmp("wide-actRight", "C05:wide-actRight:" + wk, worst, 0.0, 1e-12 * sumabs(P), [&] { return d() + ": actRight(ket) differs from the bit-wise Jordan-Wigner action in the component of " + wb; });
+        if (!ref.empty()) ++nonzero;
+        // matrix elements with the reference's image states and with one state outside the image
+        for (auto& kv : ref) {
+            WBits bb((size_t)M); for (int i = 0; i < M; ++i) bb[(size_t)i] = kv.first[(size_t)i] == '1';
+            cd me = to_cd(A.getMatrixElement(wide_fs(bb), lket));
+            c.cmp("wide-melem", "C05:wide-melem:" + wk, me, kv.second, 1e-12 * sumabs(P), [&] { return d() + ": getMatrixElement(bra=" + kv.first + ", ket)"; });
+        }
+        // static action of each raw monomial
+        for (auto& T : P) {
+            LOp::monomial_t raw;
+            for (auto& f : T.ops) raw.push_back(boost::make_tuple(f.dag ? LOp::creation : LOp::annihilation, (Pomerol::ParticleIndex)f.idx));
+            FS o; Pomerol::MelemType v; boost::tie(o, v) = LOp::actRight(raw, lket);
+            WBits b = ket; int sg = 1; bool alive = wide_apply(T.ops, b, sg);
+            bool ok = alive ? ((int)o.size() == M && o == wide_fs(b) && std::abs(to_cd(v) - cd(double(sg), 0)) < 1e-12) : (o.size() == 0 || std::abs(to_cd(v)) == 0);
+            c.check("wide-actRight-static", "C05:wide-actRight-static:" + wk, ok, [&] { return "M=" + std::to_string(M) + " monomial " + mono_str(T.ops) + " ket=" + wide_str(ket) + ": static actRight gives coefficient " + cstr(to_cd(v)) + ", expected " + (alive ? std::to_string(sg) : std::string("vanishing")); });
+        }
+    }
+    c.count("wide_samples", samples); c.count("wide_nonvanishing", nonzero);
+    c.nontrivial = nonzero >= 5;
+}
+
 // ------------------------------------------------------------------------------------------------ dispatch
 static void opalg_run(Ctx& c) {
     static bool self_ok = jw_selfcheck();
@@ -1088,7 +1169,8 @@ static void opalg_run(Ctx& c) {
     if (k < y.nCpair) { run_cpair(c, y, k); return; } k -= y.nCpair;
     if (k < y.nShort) { run_shortcut(c, k); return; } k -= y.nShort;
     if (k < y.nEq) { run_equality(c, k); return; } k -= y.nEq;
-    run_random(c, k);
+    if (k < y.nRand) { run_random(c, k); return; } k -= y.nRand;
+    run_wide(c, k);
 }
 
 VH_DRIVER(opalg, opalg_ncases, opalg_run);
